@@ -38,7 +38,7 @@ pub fn run(_o: &Opts) -> i32 {
         println!("acct {}", w.proj_account(p1).await.unwrap());
         println!("keys {}", w.proj_keys(DOMAIN_UUID).await);
         let ident = w.present(6, &tok).await.unwrap();
-        let t2 = w.reauth(7, ident, true, pw, None).await;
+        let t2 = w.reauth(7, ident, true, &ReauthCred::Pw(pw.into())).await;
         println!("reauth {:?}", t2.as_ref().map(|_| "tok"));
         if let Ok(t2) = t2 {
             let ti = decode(&t2).unwrap();
